@@ -68,6 +68,21 @@ class SFloat(Sym):
         return f"SFloat({self.z})"
 
 
+class SXReal(Sym):
+    """A Python float seen only through comparisons: extended real (nan flag, inf in {-1,0,1}, real value).
+    Exact for ==, !=, <, <=, >, >= (IEEE-754 comparison = order of the extended reals, NaN unordered, -0.0 == 0.0);
+    arithmetic on it is Unsupported."""
+    __slots__ = ("nan", "inf", "r")
+
+    def __init__(self, nan, inf, r):
+        self.nan = nan
+        self.inf = inf
+        self.r = r
+
+    def __repr__(self):
+        return f"SXReal({self.nan},{self.inf},{self.r})"
+
+
 class SOpt(Sym):
     """None-or-value.  `val` is a Sym (or concrete) of the underlying kind."""
     __slots__ = ("isnone", "val")
@@ -352,7 +367,7 @@ def kind_of(v):
         return "str"
     if isinstance(v, bytes) or isinstance(v, SBytes):
         return "bytes"
-    if isinstance(v, float) or isinstance(v, SFloat):
+    if isinstance(v, float) or isinstance(v, (SFloat, SXReal)):
         return "float"
     if v is None:
         return "none"
